@@ -5,7 +5,9 @@ import (
 	"errors"
 	"fmt"
 	"io"
+	"math"
 	"runtime"
+	"strings"
 	"sync"
 	"sync/atomic"
 	"testing"
@@ -62,6 +64,22 @@ func (c c07Case) input() []byte {
 	case "hostile", "skippable":
 		z, _ := c.Spec.Build()
 		return z
+	case "legacygrow":
+		// a legacy frame of Count stored ("raw bit") blocks, block i being as large as the compression bound of block i-1
+		// (block 0: of 8 MiB): a limit derived from the previous block instead of the format's block size grows without end
+		z := []byte{0x02, 0x21, 0x4C, 0x18}
+		size := 8 << 20
+		for i := 0; i < c.Count; i++ {
+			size = ref.BlockBound(size)
+			w := uint32(size) | 0x80000000
+			z = append(z, byte(w), byte(w>>8), byte(w>>16), byte(w>>24))
+			blk := make([]byte, size)
+			for j := range blk {
+				blk[j] = byte('A' + i)
+			}
+			z = append(z, blk...)
+		}
+		return z
 	}
 	return c.Bytes
 }
@@ -70,7 +88,11 @@ func (c c07Case) input() []byte {
 // per concurrency slot), the dependent-block window, plus a few times the input. Hostile
 // length fields used by the generator are >= 2^30, so a proportional allocation is unmistakable.
 func c07AllocBound(inputLen int64, conc int) uint64 {
-	return uint64(96<<20) + uint64(concOf(conc))*uint64(20<<20) + 6*uint64(inputLen)
+	k := concOf(conc)
+	if k > 64 {
+		k = 64 // (an absurd concurrency setting does not buy a larger allowance)
+	}
+	return uint64(96<<20) + uint64(k)*uint64(20<<20) + 6*uint64(inputLen)
 }
 
 type c07Out struct {
@@ -196,6 +218,25 @@ func runC07(c c07Case, rec *stat.Rec) *stat.Failure {
 	// block maximum - so the meter is only meaningful for the short inputs, which are the ones that carry hostile length fields)
 	if bound := c07AllocBound(inputLen, c.Conc); c.Kind != "repeat" && c.Kind != "skipbig" && o.alloc > bound {
 		return stat.Failf("C07/allocation-proportional-to-attacker-controlled-field/"+mode, "%s: %d bytes allocated while decoding (bound %d)", desc, o.alloc, bound)
+	}
+	// the declared block maximum: a block that is larger than the format allows (legacy: the compression bound of 8 MiB) must
+	// not be taken in at all - the independent parser rejects the frame for that reason and the Reader ends without error
+	if c.Kind == "legacygrow" && c.Count >= 2 {
+		// (whether the Reader honours the "stored" bit in a legacy size word is not C07's business; the second block is larger
+		// than the compression bound of the legacy block size with or without that bit)
+		rec.Class("block-larger-than-the-declared-maximum")
+		if o.err == nil {
+			return stat.Failf("C07/block-larger-than-the-declared-maximum-is-read/"+mode, "%s: %d legacy blocks, each as large as the compression bound of the one before (the second: %d bytes, the bound of an 8 MiB block is %d): the Reader allocated and read them and ended without error after %d bytes of output",
+				desc, c.Count, ref.BlockBound(ref.BlockBound(8<<20)), ref.BlockBound(8<<20), len(o.out))
+		}
+	}
+	if c.Kind == "hostile" && len(in) < 1<<20 {
+		if fr := ref.ParseFrame(in, ref.Lenient); !fr.OK() && !fr.Legacy && strings.Contains(fr.Err, "exceeds the block maximum") {
+			rec.Class("block-larger-than-the-declared-maximum")
+			if o.err == nil {
+				return stat.Failf("C07/block-larger-than-the-declared-maximum-is-read/"+mode, "%s: reference: %s; the Reader ended without error after %d bytes of output", desc, fr.Err, len(o.out))
+			}
+		}
 	}
 	// first-word classification
 	if c.Kind != "repeat" && len(in) >= 4 {
@@ -446,6 +487,24 @@ func TestC07Deep(t *testing.T) {
 	big := make([]byte, 1<<20)
 	for _, n := range []uint32{0xFFFFFFFF, 0xFFFF0001, 0xFFFF0000} {
 		cases = append(cases, c07Case{Kind: "skipbig", Prefix: append([]byte{0x53, 0x2A, 0x4D, 0x18}, le(n)...), Unit: big, Count: int(n >> 20), Suffix: append(append(make([]byte, n&(1<<20-1)), frameHdr...), 0, 0, 0, 0), Conc: 1, Sizes: []int{65536}})
+	}
+	// "any concurrency setting": absurd values (the queues between the goroutines are as long as the setting)
+	{
+		var sink inst.Sink
+		w := lz4.NewWriter(&sink)
+		_ = w.Apply(lz4.BlockSizeOption(lz4.Block64Kb))
+		_, _ = w.Write(opData(200000, 7))
+		_ = w.Close()
+		for _, conc := range []int{math.MaxInt, math.MaxInt / 2, 1 << 50, 1<<16 + 1} {
+			for _, wt := range []bool{false, true} {
+				cases = append(cases, c07Case{Kind: "random", Bytes: sink.Buf, Conc: conc, WriteTo: wt, Sizes: []int{4096}})
+			}
+		}
+	}
+	for _, n := range []int{1, 2, 3} {
+		for _, wt := range []bool{false, true} {
+			cases = append(cases, c07Case{Kind: "legacygrow", Count: n, Conc: 1, WriteTo: wt, Sizes: []int{65536}})
+		}
 	}
 	// a tiny frame that announces a content size between the block maximum and 2^32, decoded into a destination that can be told to grow
 	for _, announced := range []uint64{5 << 20, 256 << 20, 768 << 20, 1 << 30, 1<<31 - 1, 1<<32 - 1} {
